@@ -332,7 +332,7 @@ def mutate(rng, inp):
              "initial_unknown", "initial_twice", "dup_vehicle_id", "no_location", "string_speed", "zero_speed", "huge_numbers",
              "window_overlap", "start_level_gt_capacity", "mixing_bad", "dur_group_unknown", "matrix_frames_overlap", "max_stops_negative",
              "matrix_vehicle_ghost", "matrix_vehicle_missing", "matrix_vehicle_twice", "null_in_resource_map", "empty_duration_groups",
-             "null_scalars"]
+             "null_scalars", "negative_matrix_entry", "negative_matrix_entry"]
     k = rng.choice(kinds)
     st, ve = m["stops"], m["vehicles"]
     s0 = rng.choice(st) if st else None
@@ -417,6 +417,24 @@ def mutate(rng, inp):
                                (s0, "compatibility_attributes"), (s0, "mixing_items"), (v0, "speed"), (v0, "capacity"), (v0, "max_stops"),
                                (v0, "start_time"), (v0, "initial_stops"), (v0, "alternate_stops"), (s0, "quantity")])
         tgt[key] = None
+    elif k == "negative_matrix_entry":
+        # one negative entry in a duration matrix (plain, time-dependent default, a frame's own matrix, per-vehicle); inputs without a
+        # matrix get a time-dependent one
+        dm = m.get("duration_matrix")
+        n_ = len(st) + len(m.get("alternate_stops", [])) + 2 * len(ve)
+        if dm is None:
+            dm = m["duration_matrix"] = {"default_matrix": [[0 if i == j else 60 for j in range(n_)] for i in range(n_)],
+                                         "matrix_time_frames": [{"start_time": rfc(T0 + 1800), "end_time": rfc(T0 + 5400), "scaling_factor": 2.0}]}
+        if isinstance(dm, dict):
+            mats = [dm["default_matrix"]] + [fr["matrix"] for fr in dm.get("matrix_time_frames", []) if fr.get("matrix")]
+        elif dm and isinstance(dm[0], dict):
+            mats = [d_["default_matrix"] for d_ in dm]
+        else:
+            mats = [dm]
+        mat = rng.choice(mats)
+        if len(mat) >= 2:
+            i, j = rng.sample(range(len(mat)), 2)
+            mat[i][j] = -rng.choice([1, 50, 5000])
     elif k.startswith("matrix_vehicle_") and ve:
         # per-vehicle duration matrices whose vehicle ids do not cover the vehicles exactly
         dm = m.get("duration_matrix")
